@@ -146,9 +146,11 @@ pub fn run(ctx: &mut Ctx) {
     ctx.each("all_codons_x_offsets", cells, cell);
     let m = CodecId::Iupac.model();
     let mut lens = vec![];
-    for len in [0usize, 1, 2, 4, 5, 6, 16] {
+    let mut wrong: Vec<usize> = (0..=140usize).filter(|l| *l != 3).collect();
+    wrong.extend([195, 259, 515, 1027, 4099]);
+    for len in wrong {
         for pre in [0u8, 1, 14, 15] {
-            for k in 0..6 {
+            for k in 0..(if len <= 6 { 6 } else { 1 }) {
                 lens.push(LenCell { codes: (0..len).map(|i| m.codes()[(i * 5 + k * 3 + 1) % 16]).collect(), pre });
             }
         }
